@@ -69,7 +69,9 @@ endian_harness!(c15_endian_u32, u32, kani::any());
 endian_harness!(c15_endian_i32, i32, kani::any());
 endian_harness!(c15_endian_u64, u64, kani::any());
 endian_harness!(c15_endian_i64, i64, kani::any());
+// ALSO: C12
 endian_harness!(c15_endian_f32, f32, kani::any());
+// ALSO: C12
 endian_harness!(c15_endian_f64, f64, kani::any());
 #[cfg(feature = "float16")]
 endian_harness!(c15_endian_f16, Float16, Float16(float16::f16::from_bits(kani::any())));
